@@ -1,4 +1,5 @@
 import BS.Model.Reader
+import BS.Model.Merge
 import Driver.Util
 namespace Driver.C17
 open BS.Reader Driver
@@ -59,9 +60,10 @@ def spec (head : List String) (ups : List UpIn) : List String × Bool :=
     ((ups.zipIdx.filter fun (_, i) => i % np == toNat! part).flatMap (fun (u, _) => u.rows.map showRow), true)
   | ["multi"] | ["emulti"] => (all.map showRow, true)
   | ["cogroup"] =>
-    let keys := sortInts (all.map (·.1)).eraseDups
-    (keys.map fun k =>
-      joinWith "," (toString k :: ups.map fun u => showList ((u.rows.filter (·.1 == k)).map (·.2))), true)
+    -- the cogroup reader machine (BS.Merge.cgRun) over the inputs, each sorted first; value lists are compared as multisets
+    let ss := ups.map fun u => BS.KV.sortKV u.rows
+    ((BS.Merge.cgRun (all.length + 1) ss).map fun (k, groups) =>
+      joinWith "," (toString k :: groups.map showList), true)
   | ["scanner"] | ["scannerv"] =>
     -- the scanner model (BS.Reader.scanAll, buffer of 128 rows) over the scripted upstream; = r0 by `scanner_over_script`
     let u0 := ups.headD ⟨[], []⟩
